@@ -8,7 +8,9 @@ Every theorem here is about the GENERATED constant `Gen.grammarData` (regenerate
 its keyword (what `Transformer::transform` receives), located at the macro use. Nodes built from
 the template carry `use.loc`; the user's sub-forms are kept as they are.
 -/
-import RuschmProofs.MacroMatch
+import RuschmProofs.MacroShapes
+
+set_option linter.unusedSimpArgs false
 
 namespace Ruschm.C05
 open Ruschm Ruschm.Macro
@@ -41,5 +43,255 @@ theorem grammar_rule_counts :
     keywords.map (fun kw => (grammarRules kw).map (·.rules.length)) =
       [some 1, some 2, some 3, some 7, some 7, some 3, some 3, some 1, some 1] := by
   decide
+
+/-! ## Notation for the expected core data
+
+Nodes built from a template are located at the macro use: a list `(x₁ … xₙ)` built by a template
+is `Datum.ofList loc [x₁, …, xₙ]` (the head cell carries `loc`, the rest of the spine `none`), a
+symbol is `Datum.sym s loc`. The user's sub-forms appear unchanged. -/
+
+/-- the list `(x₁ … xₙ)` as a template builds it at a use located at `loc` -/
+abbrev L (loc : Loc) (xs : List Datum) : Datum := Datum.ofList loc xs
+/-- the symbol `s` as a template builds it -/
+abbrev S (loc : Loc) (s : String) : Datum := Datum.sym s loc
+
+/-- compute the declarative matcher on a symbolic use -/
+syntax "spec_match" ("[" Lean.Parser.Tactic.simpLemma,* "]")? : tactic
+macro_rules
+  | `(tactic| spec_match) =>
+    `(tactic| simp (disch := decide) [specMatchList_nil_eq, specMatchList_ell,
+        specMatchList_cons_cons, specMatchList_cons_nil, specMatch_var, specMatch_lit, specRun_var,
+        isSym, *])
+  | `(tactic| spec_match [$ts,*]) =>
+    `(tactic| simp (disch := decide) [specMatchList_nil_eq, specMatchList_ell,
+        specMatchList_cons_cons, specMatchList_cons_nil, specMatch_var, specMatch_lit, specRun_var,
+        isSym, $ts,*, *])
+
+/-- compute the declarative instantiation -/
+macro "spec_inst" : tactic =>
+  `(tactic| simp [specInst, specInstAt, specElemsAt, copies, seqLens, Tmpl.vars, Tmpl.varsElems,
+      minLen, List.lookup, range_map_getD_map, range_map_getD_pair])
+
+/-! ## when, unless -/
+
+/-- `(when test result₁ …)` ⟹ `(if test (begin result₁ …))`, for one or more results -/
+theorem when_shape {fuel use test results} (hu : IsList use (test :: results))
+    (hne : results ≠ []) (hf : matchFuel use ≤ fuel) :
+    expand1 fuel "when" use =
+      .ok (L use.loc [S use.loc "if", test, L use.loc (S use.loc "begin" :: results)]) := by
+  rw [expand1_eq_spec when_rules (by rfl) (by rfl) hf]
+  have hm : specMatch [] (pl [pv "test", pv "result", pe]) use =
+      some [("test", [test]), ("result", results)] := by
+    rw [specMatch_ofList_isList hu (by rfl)]; spec_match
+  simp only [whenRules]
+  rw [specTransform_cons_some hm]
+  spec_inst
+
+/-- `(unless test result₁ …)` ⟹ `(if (not test) (begin result₁ …))` -/
+theorem unless_shape {fuel use test results} (hu : IsList use (test :: results))
+    (hne : results ≠ []) (hf : matchFuel use ≤ fuel) :
+    expand1 fuel "unless" use =
+      .ok (L use.loc [S use.loc "if", L use.loc [S use.loc "not", test],
+        L use.loc (S use.loc "begin" :: results)]) := by
+  rw [expand1_eq_spec unless_rules (by rfl) (by rfl) hf]
+  have hm : specMatch [] (pl [pv "test", pv "result", pe]) use =
+      some [("test", [test]), ("result", results)] := by
+    rw [specMatch_ofList_isList hu (by rfl)]; spec_match
+  simp only [unlessRules]
+  rw [specTransform_cons_some hm]
+  spec_inst
+
+/-! ## begin -/
+
+/-- `(begin e₁ …)` ⟹ `((lambda () e₁ …))`, for one or more forms -/
+theorem begin_shape {fuel use es} (hu : IsList use es) (hne : es ≠ [])
+    (hf : matchFuel use ≤ fuel) :
+    expand1 fuel "begin" use =
+      .ok (L use.loc [L use.loc (S use.loc "lambda" :: L use.loc [] :: es)]) := by
+  rw [expand1_eq_spec begin_rules (by rfl) (by rfl) hf]
+  have hm : specMatch [] (pl [pv "exp1", pe]) use = some [("exp1", es)] := by
+    rw [specMatch_ofList_isList hu (by rfl)]; spec_match
+  simp only [beginRules]
+  rw [specTransform_cons_some hm]
+  spec_inst
+
+/-! ## and, or -/
+
+/-- `(and)` ⟹ `#t` -/
+theorem and_empty_shape {fuel use} (hu : IsList use []) (hf : matchFuel use ≤ fuel) :
+    expand1 fuel "and" use = .ok (.prim (.bool true) use.loc) := by
+  rw [expand1_eq_spec and_rules (by rfl) (by rfl) hf]
+  have hm : specMatch [] (pl []) use = some [] := by
+    rw [specMatch_ofList_isList hu (by rfl)]; spec_match
+  simp only [andRules]
+  rw [specTransform_cons_some hm]
+  spec_inst
+
+/-- `(and test)` ⟹ `test` -/
+theorem and_one_shape {fuel use test} (hu : IsList use [test]) (hf : matchFuel use ≤ fuel) :
+    expand1 fuel "and" use = .ok test := by
+  rw [expand1_eq_spec and_rules (by rfl) (by rfl) hf]
+  have h1 : specMatch [] (pl []) use = none := by
+    rw [specMatch_ofList_isList hu (by rfl)]; spec_match
+  have hm : specMatch [] (pl [pv "test"]) use = some [("test", [test])] := by
+    rw [specMatch_ofList_isList hu (by rfl)]; spec_match
+  simp only [andRules]
+  rw [specTransform_cons_none h1, specTransform_cons_some hm]
+  spec_inst
+
+/-- `(and test₁ test₂ …)` ⟹ `(if test₁ (and test₂ …) #f)`, for two or more tests -/
+theorem and_more_shape {fuel use test tests} (hu : IsList use (test :: tests)) (hne : tests ≠ [])
+    (hf : matchFuel use ≤ fuel) :
+    expand1 fuel "and" use =
+      .ok (L use.loc [S use.loc "if", test, L use.loc (S use.loc "and" :: tests),
+        .prim (.bool false) use.loc]) := by
+  rw [expand1_eq_spec and_rules (by rfl) (by rfl) hf]
+  have h1 : specMatch [] (pl []) use = none := by
+    rw [specMatch_ofList_isList hu (by rfl)]; spec_match
+  have h2 : specMatch [] (pl [pv "test"]) use = none := by
+    rw [specMatch_ofList_isList hu (by rfl)]; spec_match
+  have hm : specMatch [] (pl [pv "test1", pv "test2", pe]) use =
+      some [("test1", [test]), ("test2", tests)] := by
+    rw [specMatch_ofList_isList hu (by rfl)]; spec_match
+  simp only [andRules]
+  rw [specTransform_cons_none h1, specTransform_cons_none h2, specTransform_cons_some hm]
+  spec_inst
+
+/-- `(or)` ⟹ `#f` -/
+theorem or_empty_shape {fuel use} (hu : IsList use []) (hf : matchFuel use ≤ fuel) :
+    expand1 fuel "or" use = .ok (.prim (.bool false) use.loc) := by
+  rw [expand1_eq_spec or_rules (by rfl) (by rfl) hf]
+  have hm : specMatch [] (pl []) use = some [] := by
+    rw [specMatch_ofList_isList hu (by rfl)]; spec_match
+  simp only [orRules]
+  rw [specTransform_cons_some hm]
+  spec_inst
+
+/-- `(or test)` ⟹ `test` -/
+theorem or_one_shape {fuel use test} (hu : IsList use [test]) (hf : matchFuel use ≤ fuel) :
+    expand1 fuel "or" use = .ok test := by
+  rw [expand1_eq_spec or_rules (by rfl) (by rfl) hf]
+  have h1 : specMatch [] (pl []) use = none := by
+    rw [specMatch_ofList_isList hu (by rfl)]; spec_match
+  have hm : specMatch [] (pl [pv "test"]) use = some [("test", [test])] := by
+    rw [specMatch_ofList_isList hu (by rfl)]; spec_match
+  simp only [orRules]
+  rw [specTransform_cons_none h1, specTransform_cons_some hm]
+  spec_inst
+
+/-- `(or test₁ test₂ …)` ⟹ `(let ((x test₁)) (if x x (or test₂ …)))`, for two or more tests.
+(The template variable `x` is not renamed: the expander is not hygienic.) -/
+theorem or_more_shape {fuel use test tests} (hu : IsList use (test :: tests)) (hne : tests ≠ [])
+    (hf : matchFuel use ≤ fuel) :
+    expand1 fuel "or" use =
+      .ok (L use.loc [S use.loc "let", L use.loc [L use.loc [S use.loc "x", test]],
+        L use.loc [S use.loc "if", S use.loc "x", S use.loc "x",
+          L use.loc (S use.loc "or" :: tests)]]) := by
+  rw [expand1_eq_spec or_rules (by rfl) (by rfl) hf]
+  have h1 : specMatch [] (pl []) use = none := by
+    rw [specMatch_ofList_isList hu (by rfl)]; spec_match
+  have h2 : specMatch [] (pl [pv "test"]) use = none := by
+    rw [specMatch_ofList_isList hu (by rfl)]; spec_match
+  have hm : specMatch [] (pl [pv "test1", pv "test2", pe]) use =
+      some [("test1", [test]), ("test2", tests)] := by
+    rw [specMatch_ofList_isList hu (by rfl)]; spec_match
+  simp only [orRules]
+  rw [specTransform_cons_none h1, specTransform_cons_none h2, specTransform_cons_some hm]
+  spec_inst
+
+/-! ## let -/
+
+/-- `(let () body₁ …)` ⟹ `((lambda () body₁ …))` -/
+theorem let_empty_shape {fuel use b bodies} (hu : IsList use (b :: bodies)) (hb : IsList b [])
+    (hne : bodies ≠ []) (hf : matchFuel use ≤ fuel) :
+    expand1 fuel "let" use =
+      .ok (L use.loc [L use.loc (S use.loc "lambda" :: L use.loc [] :: bodies)]) := by
+  rw [expand1_eq_spec let_rules (by rfl) (by rfl) hf]
+  have hm : specMatch [] (pl [pl [], pv "body", pe]) use = some [("body", bodies)] := by
+    rw [specMatch_ofList_isList hu (by rfl)]
+    spec_match [specMatch_ofList_isList hb]
+  simp only [letRules]
+  rw [specTransform_cons_some hm]
+  spec_inst
+
+/-- `(let ((name₁ val₁) …) body₁ …)` ⟹ `((lambda (name₁ …) body₁ …) val₁ …)`, for one or more
+bindings `nvs = [(name₁, val₁), …]` and one or more body forms -/
+theorem let_shape {fuel use bs bds nvs bodies} (hu : IsList use (bs :: bodies))
+    (hbs : IsList bs bds) (hp : IsPairs bds nvs) (hnv : nvs ≠ []) (hne : bodies ≠ [])
+    (hf : matchFuel use ≤ fuel) :
+    expand1 fuel "let" use =
+      .ok (L use.loc (L use.loc (S use.loc "lambda" :: L use.loc (nvs.map (·.1)) :: bodies) ::
+        nvs.map (·.2))) := by
+  rw [expand1_eq_spec let_rules (by rfl) (by rfl) hf]
+  have hbne : bds ≠ [] := fun h => hnv (hp.nil_iff.1 h)
+  have h1 : specMatch [] (pl [pl [], pv "body", pe]) use = none := by
+    rw [specMatch_ofList_isList hu (by rfl)]
+    spec_match [specMatch_ofList_isList hbs]
+  have hm : specMatch [] (pl [pl [pl [pv "name", pv "val"], pe], pv "body", pe]) use =
+      some [("name", nvs.map (·.1)), ("val", nvs.map (·.2)), ("body", bodies)] := by
+    rw [specMatch_ofList_isList hu (by rfl)]
+    spec_match [specMatch_ofList_isList hbs, specMatchList_ell, specRun_pair2 _ _ _ hp]
+  simp only [letRules]
+  rw [specTransform_cons_none h1, specTransform_cons_some hm]
+  spec_inst
+
+/-! ## let* -/
+
+/-- `(let* () body₁ …)` ⟹ `(let () body₁ …)` -/
+theorem letstar_empty_shape {fuel use b bodies} (hu : IsList use (b :: bodies)) (hb : IsList b [])
+    (hne : bodies ≠ []) (hf : matchFuel use ≤ fuel) :
+    expand1 fuel "let*" use = .ok (L use.loc (S use.loc "let" :: L use.loc [] :: bodies)) := by
+  rw [expand1_eq_spec letstar_rules (by rfl) (by rfl) hf]
+  have hm : specMatch [] (pl [pl [], pv "body", pe]) use = some [("body", bodies)] := by
+    rw [specMatch_ofList_isList hu (by rfl)]
+    spec_match [specMatch_ofList_isList hb]
+  simp only [letstarRules]
+  rw [specTransform_cons_some hm]
+  spec_inst
+
+/-- `(let* ((name val)) body₁ …)` ⟹ `(let ((name val)) body₁ …)` -/
+theorem letstar_one_shape {fuel use bs b n v bodies} (hu : IsList use (bs :: bodies))
+    (hbs : IsList bs [b]) (hb : IsList b [n, v]) (hne : bodies ≠ [])
+    (hf : matchFuel use ≤ fuel) :
+    expand1 fuel "let*" use =
+      .ok (L use.loc (S use.loc "let" :: L use.loc [L use.loc [n, v]] :: bodies)) := by
+  rw [expand1_eq_spec letstar_rules (by rfl) (by rfl) hf]
+  have h1 : specMatch [] (pl [pl [], pv "body", pe]) use = none := by
+    rw [specMatch_ofList_isList hu (by rfl)]
+    spec_match [specMatch_ofList_isList hbs]
+  have hm : specMatch [] (pl [pl [pl [pv "name", pv "val"]], pv "body", pe]) use =
+      some [("name", [n]), ("val", [v]), ("body", bodies)] := by
+    rw [specMatch_ofList_isList hu (by rfl)]
+    spec_match [specMatch_ofList_isList hbs, specMatch_ofList_isList hb]
+  simp only [letstarRules]
+  rw [specTransform_cons_none h1, specTransform_cons_some hm]
+  spec_inst
+
+/-- `(let* ((name₁ val₁) (name₂ val₂) …) body₁ …)` ⟹
+`(let ((name₁ val₁)) (let* ((name₂ val₂) …) body₁ …))`, for two or more bindings -/
+theorem letstar_more_shape {fuel use bs b n v bds nvs bodies} (hu : IsList use (bs :: bodies))
+    (hbs : IsList bs (b :: bds)) (hb : IsList b [n, v]) (hp : IsPairs bds nvs) (hnv : nvs ≠ [])
+    (hne : bodies ≠ []) (hf : matchFuel use ≤ fuel) :
+    expand1 fuel "let*" use =
+      .ok (L use.loc [S use.loc "let", L use.loc [L use.loc [n, v]],
+        L use.loc (S use.loc "let*" :: L use.loc (nvs.map fun nv => L use.loc [nv.1, nv.2]) ::
+          bodies)]) := by
+  rw [expand1_eq_spec letstar_rules (by rfl) (by rfl) hf]
+  have hbne : bds ≠ [] := fun h => hnv (hp.nil_iff.1 h)
+  have h1 : specMatch [] (pl [pl [], pv "body", pe]) use = none := by
+    rw [specMatch_ofList_isList hu (by rfl)]
+    spec_match [specMatch_ofList_isList hbs]
+  have h2 : specMatch [] (pl [pl [pl [pv "name", pv "val"]], pv "body", pe]) use = none := by
+    rw [specMatch_ofList_isList hu (by rfl)]
+    spec_match [specMatch_ofList_isList hbs, specMatch_ofList_isList hb]
+  have hm : specMatch []
+      (pl [pl [pl [pv "name1", pv "val1"], pl [pv "name2", pv "val2"], pe], pv "body", pe]) use =
+      some [("name1", [n]), ("val1", [v]), ("name2", nvs.map (·.1)), ("val2", nvs.map (·.2)),
+        ("body", bodies)] := by
+    rw [specMatch_ofList_isList hu (by rfl)]
+    spec_match [specMatch_ofList_isList hbs, specMatch_ofList_isList hb,  specMatchList_cons_cons, specMatchList_ell, specRun_pair2 _ _ _ hp]
+  simp only [letstarRules]
+  rw [specTransform_cons_none h1, specTransform_cons_none h2, specTransform_cons_some hm]
+  spec_inst
 
 end Ruschm.C05
